@@ -1,7 +1,7 @@
 (* TracerFacts3.v — facts about TracerNames.v: since fix cfb58ac every Trace owns its `names` list. *)
 From Coq Require Import ZArith List Bool Lia.
 Import ListNotations.
-Require Import PyBase Solver SolverFacts SolveAll Tracer TracerSolve TracerNames TracerFacts TracerFacts2.
+Require Import PyBase Solver SolverFacts SolveAll Tracer TracerSolve TracerNames TracerLinked TracerFacts TracerFacts2.
 
 Lemma deref_alloc_old h l a : (a < length h)%nat -> deref (fst (alloc h l)) a = deref h a.
 Proof. intros H. unfold deref, alloc. cbn [fst]. apply app_nth1. exact H. Qed.
@@ -234,3 +234,80 @@ Proof.
     + symmetry. apply Bool.not_true_is_false. intros Q. apply existsb_exists in Q.
       destruct Q as (x & Hx & Q). apply Nat.eqb_eq in Q. subst x. exact (H Hx).
 Qed.
+
+(* ==================================================================== a traced model as a submodel of a linker *)
+Section LinkedFacts.
+  Variable num : Type.
+  Variable zero : num.
+  Variables (cfg : tcfg) (a : targ) (reset : bool).
+  Variable ev : hook num.
+  Hypothesis ev_shape : shape_pres num ev.
+  Hypothesis a_on : truthy a = true.
+  Notation linked_passes := (linked_passes num cfg a reset ev).
+  Notation plain_passes := (plain_passes num ev).
+  Notation linked_entries := (linked_entries num zero ev).
+  Notation empty_trace := (empty_trace num).
+
+  (* The linker's passes over a traced submodel, when trace_t cannot fail at the period: erasing the Trace objects
+     gives the passes over the plain submodel (values, the exception that stopped them); only the period's own Trace
+     moves; it receives exactly one snapshot per pass that returned, labelled with the pass number — no 'start',
+     'before', 0 or 'end' — holding the traced variables as that pass left them. *)
+  Theorem linked_passes_spec t em cf : forall n k v tr p,
+    names_valid num v t (names_of cfg (length v) a) ->
+    py_pos (length tr) t = Some p ->
+    reset = true \/ width_ok num (nth p tr empty_trace) (length (names_of cfg (length v) a)) ->
+    let R := linked_passes t em cf k n v tr in
+    (fst (fst R), snd R) = plain_passes t em cf k n v /\
+    shape num (fst (fst R)) = shape num v /\
+    length (snd (fst R)) = length tr /\
+    (forall q, q <> p -> nth q (snd (fst R)) empty_trace = nth q tr empty_trace) /\
+    nth p (snd (fst R)) empty_trace
+    = pushes num (names_of cfg (length v) a) reset (nth p tr empty_trace)
+        (linked_entries t em cf (names_of cfg (length v) a) k n v).
+  Proof.
+    induction n as [|n IH]; intros k v tr p Hv Hp Hw; cbv zeta.
+    { cbn [TracerLinked.linked_passes TracerLinked.plain_passes TracerLinked.linked_entries fst snd].
+      repeat split; auto. }
+    cbn [TracerLinked.linked_passes TracerLinked.plain_passes TracerLinked.linked_entries].
+    unfold traced_ev. rewrite a_on.
+    pose proof (ev_shape t em cf k v) as Hsh.
+    destruct (ev t em cf k v) as [v1 [c|]] eqn:Eev; cbn [fst] in Hsh.
+    { cbn [fst snd]. repeat split; auto. }
+    assert (Hlen : length v1 = length v) by (apply (shape_length num); exact Hsh).
+    assert (Hv1 : names_valid num v1 t (names_of cfg (length v1) a)).
+    { rewrite Hlen. apply (names_valid_shape num v v1); [symmetry; exact Hsh|exact Hv]. }
+    assert (Hw1 : reset = true \/ width_ok num (nth p tr empty_trace) (length (names_of cfg (length v1) a)))
+      by (rewrite Hlen; exact Hw).
+    rewrite (trace_t_ok num zero cfg t (LIter k) a reset v1 tr p Hv1 Hp Hw1).
+    rewrite Hlen.
+    set (names := names_of cfg (length v) a) in *.
+    set (new := push num names reset (nth p tr empty_trace) (LIter k) (snap num zero v1 t names)).
+    assert (Hplt : (p < length tr)%nat) by (apply (py_pos_lt _ t); exact Hp).
+    assert (Hnew : nth p (upd p new tr) empty_trace = new) by (apply nth_upd_same; exact Hplt).
+    specialize (IH (S k) v1 (upd p new tr) p).
+    rewrite Hlen, upd_length, Hnew in IH. fold names in IH.
+    assert (Hw2 : reset = true \/ width_ok num new (length names)).
+    { destruct Hw as [Hw|Hw]; [left; exact Hw|right]. subst new. apply push_width; [right; exact Hw|apply snap_length]. }
+    rewrite Hlen in Hv1. fold names in Hv1.
+    specialize (IH Hv1 Hp Hw2). cbv zeta in IH. destruct IH as (I1 & I2 & I3 & I4 & I5).
+    split; [exact I1|]. split; [congruence|]. split; [exact I3|]. split.
+    - intros q Hq. rewrite I4 by exact Hq. apply nth_upd_neq. congruence.
+    - rewrite I5. reflexivity.
+  Qed.
+
+  (* the labels recorded are consecutive pass numbers starting at k: k, k+1, .., k+m-1 for the m <= n passes that
+     returned; all n of them when no pass raised *)
+  Lemma linked_entries_labels t em cf names : forall n k v,
+    exists m, (m <= n)%nat /\ map fst (linked_entries t em cf names k n v) = map LIter (seq k m) /\
+              (snd (plain_passes t em cf k n v) = None -> m = n).
+  Proof.
+    induction n as [|n IH]; intros k v.
+    { exists 0%nat. repeat split; auto. }
+    cbn [TracerLinked.linked_entries TracerLinked.plain_passes].
+    destruct (ev t em cf k v) as [v1 [c|]].
+    - exists 0%nat. split; [lia|]. split; [reflexivity|]. cbn [snd]. discriminate.
+    - destruct (IH (S k) v1) as (m & Hm & Hl & Hn). exists (S m). split; [lia|]. split.
+      + cbn [map fst seq]. rewrite Hl. reflexivity.
+      + intros H. rewrite (Hn H). reflexivity.
+  Qed.
+End LinkedFacts.
